@@ -79,4 +79,13 @@ PROPS = {
         assumptions=["Next on an empty balancer returns nil and the proxy dereferences it: requests with zero targets are outside the property (generator keeps >= 1 target)",
                      "rewrite rules and the random balancer are not modelled"],
     ),
+    "C13": dict(
+        n_quick=6000, n_thorough=250000, incoq=120,
+        level_text="Theorems C13_* (Props/C13.v): for every Authorization value, base64 oracle and validator function, BasicAuth runs the handler iff the header decodes to u:p split at the FIRST colon and the validator returned (true,nil), consulting the validator at most once; for every KeyAuth lookup list and request data the handler runs iff some value literally present at a configured location (scheme prefix removed, within the 20-value limit) is accepted; validator errors never reach the handler. Model compared with the real middlewares incl. the validator call log, over request histories through one instance.",
+        technique="Coq proofs (soundness + completeness over all headers/lookup data, validator as a universally quantified function) + differential correspondence incl. validator call logs",
+        trusted=["encoding/base64 (oracle), net/http header/cookie/form/query parsing (the harness reads what is present at each location from an identical request)",
+                 "strings.EqualFold modelled for ASCII",
+                 "KeyAuth with default ErrorHandler; ContinueOnIgnoredError (the documented opt-in exception) is outside the model"],
+        assumptions=[],
+    ),
 }
